@@ -30,6 +30,9 @@ def gen(rng, i, tier):
     present = [(idx >> b) & 1 for b in range(4)]
     containers = (idx >> 4) & 3  # 0: containers only when needed, 1: empty "Y" present, 2: empty "Q[S(Q)-1]" present, 3: no Merging at all
     vals = [float(rng.uniform(0.5, 2.0)), float(rng.uniform(-0.5, 0.5)), float(rng.uniform(0.5, 2.0)), float(rng.uniform(-0.5, 0.5))]
+    for k in range(4):
+        if rng.random() < 0.12:
+            vals[k] = 0.0        # "all scale/offset values": zero is a value, not "absent"
     return dict(datasets=ds, present=present, containers=containers, vals=vals, subset="".join(map(str, present)) + f"/{containers}",
                 reverse=bool(rng.random() < 0.5))
 
